@@ -15,6 +15,9 @@ import (
 // included) before the call is found to have the wrong number of them. Steps separated by " | "
 // are separate evaluations on one interpreter; ERR stands for any error.
 var c02Fixed = []struct{ prog, want, trace string }{
+	// recursion written as a tail call: every iteration has its own parameters (closures made on the way keep theirs)
+	{"(defn mk [n acc] (cond (== n 0) acc (mk (- n 1) (cons (fn [] n) acc)))) (map (fn [f] (f)) (mk 3 (list)))", "(1 2 3)", ""},
+	{"(defn mk [n acc] (tr 1 n) (cond (== n 0) acc (mk (- n 1) (append acc (fn [] (* n 10)))))) (map (fn [f] (f)) (mk 3 []))", "[30 20 10]", "1:3,1:2,1:1,1:0"},
 	{"(defn f [] 1) (defn g [] (f)) (def a (g)) (defn f [] 2) (list a (g))", "(1 2)", ""},
 	{"(defn f [] 1) (defn g [] (f)) (g) | (defn f [] 2) (g) | (def f (fn [] 3)) (g)", "1|2|3", ""},
 	{"(defn f [x] (+ x 1)) (defn g [x] (f (f x))) (def a (g 0)) (defn f [x] (* x 10)) (list a (g 1))", "(2 100)", ""},
